@@ -394,6 +394,28 @@ func c12JoinOperands(c *Ctx, rule string) {
 				return true
 			}
 			for _, g := range lexicalGuards(cpm, br, rs.Body) {
+				// `if _, ok := set[name]; ok { continue }` where set is a local map filled from the
+				// matching labels, each label as a key, and nothing else
+				if id, isId := ast.Unparen(g.E).(*ast.Ident); isId && g.Truth {
+					for cur := cpm[ast.Node(br)]; cur != nil; cur = cpm[cur] {
+						ifs, isIf := cur.(*ast.IfStmt)
+						if !isIf || ifs.Init == nil {
+							continue
+						}
+						ia, isAs := ifs.Init.(*ast.AssignStmt)
+						if !isAs || len(ia.Lhs) != 2 || len(ia.Rhs) != 1 || cinfo.Defs[identOf(ia.Lhs[1])] != cinfo.Uses[id] || cinfo.Uses[id] == nil {
+							continue
+						}
+						ix, isIx := ast.Unparen(ia.Rhs[0]).(*ast.IndexExpr)
+						if !isIx || !isObj(cinfo, ix.Index, nameObj) {
+							continue
+						}
+						if src := localSetSource(cinfo, cj.Decl.Body, objOf(cinfo, ix.X)); src != nil && strings.HasSuffix(exprStr(src), ".MatchingLabels") {
+							skips++
+						}
+					}
+					continue
+				}
 				call, ok := ast.Unparen(g.E).(*ast.CallExpr)
 				if !ok || !g.Truth || len(call.Args) != 2 {
 					continue
@@ -635,9 +657,34 @@ func c12Arithmetic(c *Ctx, rule string) {
 			body := cs.Clause.Body
 			ok, got := false, ""
 			if len(cs.Clause.List) == 1 && len(body) == 1 {
+				var res ast.Expr
 				if r, isRet := body[0].(*ast.ReturnStmt); isRet && len(r.Results) >= 1 {
-					got = exprStr(r.Results[0])
-					switch x := ast.Unparen(r.Results[0]).(type) {
+					res = r.Results[0]
+				} else if as, isAs := body[0].(*ast.AssignStmt); isAs && as.Tok == token.ASSIGN && len(as.Lhs) == 1 && len(as.Rhs) == 1 {
+					// `ret = ls + rs` where ret is what the function returns after the switch, untouched
+					if v, isVar := objOf(info, as.Lhs[0]).(*types.Var); isVar && !v.IsField() {
+						list := csr.Decl.Body.List
+						if last, isRet := list[len(list)-1].(*ast.ReturnStmt); isRet && len(last.Results) >= 1 && objOf(info, last.Results[0]) == v && last.Pos() > sw.End() {
+							untouched := true
+							ast.Inspect(csr.Decl.Body, func(n ast.Node) bool {
+								if a2, ok := n.(*ast.AssignStmt); ok && a2.Pos() > sw.End() {
+									for _, l := range a2.Lhs {
+										if objOf(info, l) == v {
+											untouched = false
+										}
+									}
+								}
+								return true
+							})
+							if untouched {
+								res = as.Rhs[0]
+							}
+						}
+					}
+				}
+				if res != nil {
+					got = exprStr(res)
+					switch x := ast.Unparen(res).(type) {
 					case *ast.BinaryExpr:
 						ok = x.Op.String() == want && isNum(x.X, lsP) && isNum(x.Y, rsP)
 					case *ast.CallExpr:
@@ -1587,4 +1634,76 @@ func c12OnLabelsOnlyIfPossible(c *Ctx, rule string) {
 	}
 	visit(pb, nil, 0)
 	c.Check(n >= 1, rule, "parseBinOps:on(...) labels re-admitted somewhere", pb.Decl.Pos(), itoa(n), "no includeLabel fed from VectorMatching.MatchingLabels found")
+}
+
+// localSetSource recognises a local map used as a set of the elements of one list: every store into it is
+// `m[v] = …` in the body of `for _, v := range L` (one such loop), and it is not handed to anything. It
+// returns L, or nil.
+func localSetSource(info *types.Info, body *ast.BlockStmt, m types.Object) ast.Expr {
+	mv, ok := m.(*types.Var)
+	if !ok || mv.IsField() || mv.Parent() == nil || mv.Pkg() == nil || mv.Parent() == mv.Pkg().Scope() {
+		return nil
+	}
+	if _, isMap := mv.Type().Underlying().(*types.Map); !isMap {
+		return nil
+	}
+	pm := parentMap(body)
+	var src ast.Expr
+	bad := false
+	ast.Inspect(body, func(n ast.Node) bool {
+		switch x := n.(type) {
+		case *ast.AssignStmt:
+			for i, l := range x.Lhs {
+				if objOf(info, l) == m {
+					// the definition: make(...) or an empty literal
+					if i < len(x.Rhs) {
+						switch r := ast.Unparen(x.Rhs[i]).(type) {
+						case *ast.CallExpr:
+							if id, ok := r.Fun.(*ast.Ident); !ok || id.Name != "make" {
+								bad = true
+							}
+						case *ast.CompositeLit:
+							if len(r.Elts) != 0 {
+								bad = true
+							}
+						default:
+							bad = true
+						}
+					}
+					continue
+				}
+				ix, isIx := ast.Unparen(l).(*ast.IndexExpr)
+				if !isIx || objOf(info, ix.X) != m {
+					continue
+				}
+				var loop *ast.RangeStmt
+				for cur := pm[ast.Node(x)]; cur != nil; cur = pm[cur] {
+					if r, ok := cur.(*ast.RangeStmt); ok {
+						loop = r
+						break
+					}
+				}
+				if loop == nil || loop.Value == nil || info.Defs[identOf(loop.Value)] == nil || objOf(info, ix.Index) != info.Defs[identOf(loop.Value)] || (src != nil && src != loop.X) {
+					bad = true
+					continue
+				}
+				src = loop.X
+			}
+		case *ast.CallExpr:
+			for _, a := range x.Args {
+				if objOf(info, a) == m {
+					if id, ok := x.Fun.(*ast.Ident); !ok || (id.Name != "len" && id.Name != "delete") {
+						bad = true
+					} else if id.Name == "delete" {
+						bad = true
+					}
+				}
+			}
+		}
+		return true
+	})
+	if bad {
+		return nil
+	}
+	return src
 }
